@@ -34,6 +34,9 @@ def body(led):
     py_panel.check_calc_kG0(led, replay=replays.panel_matrix('kG0', 'plate', False))
     py_panel.check_calc_kG0_state(led)
     py_panel.check_one_laminate(led)
+    # Panel.lb builds the geometric matrix from the state handed in as c (and the constitutive one from ckL): argument pass-through
+    from . import c05
+    c05.check_panel_lb(led, arguments_only=True)
     from . import c03_num
     c03_num.body(led)
     ok, _ = K.compare(real('Nxx') * 2, real('Nxx'))
